@@ -229,6 +229,11 @@ struct Ctx<'a> {
     cells: Vec<OutPoint>,
     /// a verdict or tip difference was reported: the two nodes are on different histories
     diverged: bool,
+    /// blocks the chain service verifies with `Switch::DISABLE_SCRIPT` (assume-valid window): `blks` lines
+    skip_blocks: HashSet<Byte32>,
+    /// assume-valid blocks committing transactions the warm node holds entries for: `BlockExt.cycles`
+    /// is cache-dependent there (finding candidate, counted); the cycles column is left out for them
+    ext_cycles_excluded: HashSet<Byte32>,
 }
 
 impl Ctx<'_> {
@@ -299,7 +304,8 @@ impl Ctx<'_> {
                 let fees: Vec<u64> = ext.txs_fees.iter().map(|c| c.as_u64()).collect();
                 let cycles: Vec<u64> = ext.cycles.clone().unwrap_or_default();
                 let f = |v: &[u64]| if v.is_empty() { "-".to_string() } else { v.iter().map(|x| x.to_string()).collect::<Vec<_>>().join(",") };
-                self.out.op(&format!("blk {}", line), &format!("ok fees={} cycles={}", f(&fees), f(&cycles)));
+                let kw = if self.skip_blocks.contains(&blk.hash()) { "blks" } else { "blk" };
+                self.out.op(&format!("{} {}", kw, line), &format!("ok fees={} cycles={}", f(&fees), f(&cycles)));
             }
         } else if rw.is_ok() && tw != b.hash() {
             self.side.push(b.clone());
@@ -440,7 +446,11 @@ impl Ctx<'_> {
                     }};
                 }
                 q!("is_main_chain", |s: &ckb_store::ChainDB| format!("{:?}", s.is_main_chain(&h)));
-                q!("get_block_ext", |s: &ckb_store::ChainDB| format!("{:?}", s.get_block_ext(&h).map(|e| (e.verified, e.txs_fees, e.cycles, e.total_difficulty, e.total_uncles_count))));
+                if self.ext_cycles_excluded.contains(&h) {
+                    q!("get_block_ext", |s: &ckb_store::ChainDB| format!("{:?}", s.get_block_ext(&h).map(|e| (e.verified, e.txs_fees, e.total_difficulty, e.total_uncles_count))));
+                } else {
+                    q!("get_block_ext", |s: &ckb_store::ChainDB| format!("{:?}", s.get_block_ext(&h).map(|e| (e.verified, e.txs_fees, e.cycles, e.total_difficulty, e.total_uncles_count))));
+                }
                 q!("get_block_number", |s: &ckb_store::ChainDB| format!("{:?}", s.get_block_number(&h)));
                 q!("get_block_hash", |s: &ckb_store::ChainDB| format!("{:?}", s.get_block_hash(b.number())));
                 q!("get_block_epoch_index", |s: &ckb_store::ChainDB| format!("{:?}", s.get_block_epoch_index(&h)));
@@ -652,7 +662,7 @@ fn run_case(out: &mut Out, seed: u64, base: &Path, cyc: u64) {
     let warm = start(&dir.join("warm"), consensus.clone(), small);
     let mut bld = ChainBuilder::new(consensus.clone(), &dir.join("builder"));
     let cells = genesis_cells(&consensus);
-    let mut c = Ctx { out, cold, warm, ids: HashMap::new(), content: HashMap::new(), blocks: vec![], side: vec![], cyc, bad: HashSet::new(), cells: vec![], diverged: false };
+    let mut c = Ctx { out, cold, warm, ids: HashMap::new(), content: HashMap::new(), blocks: vec![], side: vec![], cyc, bad: HashSet::new(), cells: vec![], diverged: false, skip_blocks: HashSet::new(), ext_cycles_excluded: HashSet::new() };
     c.out.op(&format!("max {}", consensus.max_block_cycles()), "ok");
     // what an RPC `get_live_cell(with_data)` does while the cell is live: fills the cell-data cache
     for n in [&c.cold, &c.warm] {
@@ -841,6 +851,157 @@ fn run_case(out: &mut Out, seed: u64, base: &Path, cyc: u64) {
     let _ = std::fs::remove_dir_all(&dir);
 }
 
+/// kind=cyc: the block cycle limit at its boundary and the verification switch.
+/// `max_block_cycles` is lowered to L ∈ {2c-1, 2c, 2c+1, 3c-1, 3c} (c = cycles of one always-success
+/// input; n = L / c transactions fit). Branch 1 commits 2n transactions in two blocks (the warm
+/// node's cache now holds all of them). Branch 2: a block with n + 1 of them, on the block that makes
+/// the branch the heaviest, must be refused (ExceededMaximumCycles) by both nodes — the warm node
+/// takes the hit path for every one of them, so the sum must count hits; then a block with exactly n
+/// (sum = n·c ≤ L, = L when L = n·c) must be accepted. Assume-valid window (the nodes'
+/// `assume_valid_targets` set to a block two ahead, `chain/src/verify.rs verify_block`): a block
+/// commits a never-seen transaction Q with scripts skipped (cycles 0, nothing cached), the target is
+/// reached, and a heavier branch commits Q again under full verification: both nodes must record Q's
+/// real cycles (F32 class). Last, an assume-valid block commits transactions the warm node holds
+/// entries for: the recorded cycles are cache-dependent (counted, not failed).
+fn run_cyc_case(out: &mut Out, seed: u64, base: &Path, cyc: u64) {
+    let mut rng = Rng::new(seed ^ 0xC1C1E);
+    let limits = [2 * cyc - 1, 2 * cyc, 2 * cyc + 1, 3 * cyc - 1, 3 * cyc];
+    let limit = limits[(seed % 5) as usize];
+    let n_fit = (limit / cyc) as usize;
+    out.begin_case(&format!("seed={} kind=cyc", seed));
+    let cfg = NodeCfg { epoch_len: rng.range(12, 16), window: (2, 10), genesis_cells: 8, ..Default::default() };
+    let mut consensus = make_consensus(&cfg);
+    consensus.max_block_cycles = limit;
+    let dir = base.join(format!("cyc-{}", seed));
+    let _ = std::fs::remove_dir_all(&dir);
+    let zero = StoreConfig { header_cache_size: 0, cell_data_cache_size: 0, block_proposals_cache_size: 0, block_tx_hashes_cache_size: 0, block_uncles_cache_size: 0, block_extensions_cache_size: 0, freezer_enable: false };
+    let cold = start(&dir.join("cold"), consensus.clone(), zero);
+    let warm = start(&dir.join("warm"), consensus.clone(), StoreConfig::default());
+    let mut bld = ChainBuilder::new(consensus.clone(), &dir.join("builder"));
+    let cells = genesis_cells(&consensus);
+    let mut c = Ctx { out, cold, warm, ids: HashMap::new(), content: HashMap::new(), blocks: vec![], side: vec![], cyc, bad: HashSet::new(), cells: vec![], diverged: false, skip_blocks: HashSet::new(), ext_cycles_excluded: HashSet::new() };
+    c.out.op(&format!("max {}", limit), "ok");
+    let ps: Vec<TransactionView> = (0..2 * n_fit).map(|i| spend(&cells[i..i + 1], 0, 1000 + rng.below(400) + i as u64, 40 + i as u64, None)).collect();
+    let q = spend(&cells[7..8], 0, 900 + rng.below(90), 77, Some(vec![9, seed as u8]));
+    for (i, t) in ps.iter().enumerate() {
+        c.content.insert(t.witness_hash(), (cells[i].1 - out_cap(t), cyc));
+    }
+    c.content.insert(q.witness_hash(), (cells[7].1 - out_cap(&q), cyc));
+    c.cells = cells.iter().map(|x| x.0.clone()).collect();
+    let mut props: Vec<_> = ps.iter().map(|t| t.proposal_short_id()).collect();
+    props.push(q.proposal_short_id());
+    let g = consensus.genesis_hash();
+    let mut salt = seed * 1000 + 900;
+    let mut next = |tip: &Byte32, bld: &mut ChainBuilder, txs: Vec<TransactionView>, props: Vec<ckb_types::packed::ProposalShortId>| {
+        salt += 1;
+        bld.build(tip, &BlockSpec { txs, proposals: props, salt, ..Default::default() })
+    };
+    macro_rules! stop_if_diverged {
+        () => {
+            if c.diverged {
+                c.out.count("cyc:stopped-after-divergence");
+                let Ctx { cold, warm, .. } = c;
+                drop(cold.chain);
+                drop(warm.chain);
+                drop(cold.shared);
+                drop(warm.shared);
+                drop(bld);
+                let _ = std::fs::remove_dir_all(&dir);
+                return;
+            }
+        };
+    }
+    let set_targets = |c: &Ctx, target: &BlockView| {
+        for n in [&c.cold, &c.warm] {
+            let h: ckb_types::H256 = target.hash().unpack();
+            *n.shared.assume_valid_targets() = Some(vec![h]);
+        }
+    };
+    let b1 = next(&g, &mut bld, vec![], props.clone());
+    c.deliver(&b1, &[], "cyc:prefix");
+    let b2 = next(&b1.hash(), &mut bld, vec![], vec![]);
+    c.deliver(&b2, &[], "cyc:prefix");
+    // ---- branch 1: all 2n transactions, n per block (sum = n·c ≤ L): verified one chunk at a time
+    let c3 = next(&b2.hash(), &mut bld, ps[0..n_fit].to_vec(), vec![]);
+    c.deliver(&c3, &[], "cyc:branch1-n-txs");
+    let c4 = next(&c3.hash(), &mut bld, ps[n_fit..2 * n_fit].to_vec(), vec![]);
+    c.deliver(&c4, &[], "cyc:branch1-n-txs");
+    stop_if_diverged!();
+    // ---- branch 2: two stored blocks, then n + 1 transactions on the block that makes it heaviest
+    let e3 = next(&b2.hash(), &mut bld, vec![], vec![]);
+    c.deliver(&e3, &[], "cyc:branch2-side");
+    let e4 = next(&e3.hash(), &mut bld, vec![], vec![]);
+    c.deliver(&e4, &[], "cyc:branch2-side");
+    let x = next(&e4.hash(), &mut bld, ps[0..n_fit + 1].to_vec(), vec![]);
+    c.deliver(&x, &[], &format!("cyc:n+1-txs-over-limit(L={}c{:+})", n_fit, limit as i64 - (n_fit as u64 * cyc) as i64));
+    stop_if_diverged!();
+    let y = next(&e4.hash(), &mut bld, ps[0..n_fit].to_vec(), vec![]);
+    c.deliver(&y, &[], &format!("cyc:n-txs-within-limit(L={}c{:+})", n_fit, limit as i64 - (n_fit as u64 * cyc) as i64));
+    stop_if_diverged!();
+    if c.warm.shared.snapshot().tip_hash() != y.hash() {
+        c.out.oracle_fail("cyc-setup", "branch 2 did not become the main chain");
+    }
+    // ---- assume-valid window 1: Q (never seen) committed with scripts skipped, then the target
+    let z1 = next(&y.hash(), &mut bld, vec![q.clone()], vec![]);
+    let z2 = next(&z1.hash(), &mut bld, vec![], vec![]);
+    set_targets(&c, &z2);
+    c.skip_blocks.insert(z1.hash());
+    c.deliver(&z1, &[], "cyc:assume-valid-commit-Q-unseen");
+    c.deliver(&z2, &[], "cyc:assume-valid-target");
+    stop_if_diverged!();
+    for n in [&c.cold, &c.warm] {
+        if n.shared.assume_valid_targets().is_some() {
+            c.out.oracle_fail("cyc-setup", "the assume-valid target was not reached");
+        }
+    }
+    {
+        let (ec, ew) = (c.cold.shared.store().get_block_ext(&z1.hash()).and_then(|e| e.cycles), c.warm.shared.store().get_block_ext(&z1.hash()).and_then(|e| e.cycles));
+        c.out.count(&format!("cyc:assume-valid-unseen-tx:cold-cycles-zero={},warm-cycles-zero={}", ec == Some(vec![0]), ew == Some(vec![0])));
+    }
+    // ---- branch 3 from y: Q again, full verification, on the block that makes it the heaviest
+    let f6 = next(&y.hash(), &mut bld, vec![], vec![]);
+    c.deliver(&f6, &[], "cyc:branch3-side");
+    let f7 = next(&f6.hash(), &mut bld, vec![], vec![]);
+    c.deliver(&f7, &[], "cyc:branch3-side");
+    let f8 = next(&f7.hash(), &mut bld, vec![q.clone()], vec![]);
+    c.deliver(&f8, &[], "cyc:full-verification-of-Q-after-assume-valid");
+    stop_if_diverged!();
+    if c.warm.shared.snapshot().tip_hash() != f8.hash() {
+        c.out.oracle_fail("cyc-setup", "branch 3 did not become the main chain");
+    }
+    {
+        // the property, directly: Q's recorded cycles are the real ones on both nodes
+        let (ec, ew) = (c.cold.shared.store().get_block_ext(&f8.hash()).and_then(|e| e.cycles), c.warm.shared.store().get_block_ext(&f8.hash()).and_then(|e| e.cycles));
+        c.out.evaluations += 2;
+        if ec != Some(vec![cyc]) || ew != Some(vec![cyc]) {
+            c.out.oracle_fail("cycles-after-assume-valid", &format!("Q fully verified after an assume-valid block committed it: cold records {:?}, warm {:?}, a full script run costs {}", ec, ew, cyc));
+        }
+    }
+    // ---- assume-valid window 2: transactions the warm node holds entries for (hit path with scripts skipped)
+    let h1 = next(&f8.hash(), &mut bld, ps[n_fit..2 * n_fit].to_vec(), vec![]);
+    let h2 = next(&h1.hash(), &mut bld, vec![], vec![]);
+    set_targets(&c, &h2);
+    c.skip_blocks.insert(h1.hash());
+    c.ext_cycles_excluded.insert(h1.hash());
+    c.deliver(&h1, &[], "cyc:assume-valid-commit-cached-txs");
+    c.deliver(&h2, &[], "cyc:assume-valid-target");
+    stop_if_diverged!();
+    {
+        let (ec, ew) = (c.cold.shared.store().get_block_ext(&h1.hash()).and_then(|e| e.cycles), c.warm.shared.store().get_block_ext(&h1.hash()).and_then(|e| e.cycles));
+        let z = |v: &Option<Vec<u64>>| match v { Some(v) if v.iter().all(|x| *x == 0) => "zero", Some(v) if v.iter().all(|x| *x == cyc) => "real", _ => "other" };
+        c.out.count(&format!("cyc:F34-candidate:assume-valid-block-of-cached-txs:BlockExt.cycles:cold={},warm={}", z(&ec), z(&ew)));
+    }
+    c.compare_queries(&cells.iter().map(|x| x.0.clone()).collect::<Vec<_>>());
+    c.out.nontrivial(format!("cyc|{}|{}|{}", limit as i64 - (n_fit as u64 * cyc) as i64, n_fit, cfg.epoch_len));
+    let Ctx { cold, warm, .. } = c;
+    drop(cold.chain);
+    drop(warm.chain);
+    drop(cold.shared);
+    drop(warm.shared);
+    drop(bld);
+    let _ = std::fs::remove_dir_all(&dir);
+}
+
 /// the tx-pool path: pool submission fills the verification cache, the same transaction is then
 /// committed in a block (cached path in `warm`); and the pool-vs-block cycle limits: a transaction
 /// whose cycles exceed `max_tx_verify_cycles` but not the block limit is committed by a block
@@ -862,7 +1023,7 @@ fn run_pool_case(out: &mut Out, seed: u64, base: &Path, cyc: u64) {
     let warm = start_with(&dir.join("warm"), consensus.clone(), StoreConfig::default(), Some(tp));
     let mut bld = ChainBuilder::new(consensus.clone(), &dir.join("builder"));
     let cells = genesis_cells(&consensus);
-    let mut c = Ctx { out, cold, warm, ids: HashMap::new(), content: HashMap::new(), blocks: vec![], side: vec![], cyc, bad: HashSet::new(), cells: vec![], diverged: false };
+    let mut c = Ctx { out, cold, warm, ids: HashMap::new(), content: HashMap::new(), blocks: vec![], side: vec![], cyc, bad: HashSet::new(), cells: vec![], diverged: false, skip_blocks: HashSet::new(), ext_cycles_excluded: HashSet::new() };
     c.out.op(&format!("max {}", consensus.max_block_cycles()), "ok");
     let fee1 = 1500 + rng.below(500);
     let p1 = spend(&cells[0..1], 0, fee1, 1, None);
@@ -1150,7 +1311,7 @@ fn run_vc_case(out: &mut Out, seed: u64, base: &Path, cyc: u64, var: Option<&str
     let warm = start_with(&dir.join("warm"), consensus.clone(), StoreConfig::default(), Some(tp));
     let mut bld = ChainBuilder::new(consensus.clone(), &dir.join("builder"));
     let cells = genesis_cells(&consensus);
-    let mut c = Ctx { out, cold, warm, ids: HashMap::new(), content: HashMap::new(), blocks: vec![], side: vec![], cyc, bad: HashSet::new(), cells: vec![], diverged: false };
+    let mut c = Ctx { out, cold, warm, ids: HashMap::new(), content: HashMap::new(), blocks: vec![], side: vec![], cyc, bad: HashSet::new(), cells: vec![], diverged: false, skip_blocks: HashSet::new(), ext_cycles_excluded: HashSet::new() };
     c.out.op(&format!("max {}", consensus.max_block_cycles()), "ok");
 
     // ---- transactions
@@ -1745,17 +1906,387 @@ fn run_store_case(out: &mut Out, seed: u64, base: &Path) {
     let _ = std::fs::remove_dir_all(&dir);
 }
 
+// ------------------------------------------------------------------------------------------------
+// kind=sys: the SYSTEM_CELL map (`util/types/src/core/cell.rs`), the production functions
+// `setup_system_cell_cache`, `resolve_transaction` and `ResolvedTransaction::check` over a cell
+// provider / checker the harness controls. SYSTEM_CELL is a process-wide once-lock: every case is
+// generated and answered FIRST while it is not initialised (phase 1, at the start of the run, the
+// answers are kept), the other kinds run, and at the very end `setup_system_cell_cache` is called
+// on the case genesis and every case is answered again (phase 2). Oracle: the two answers of every
+// request are equal. Model: both phases replay on `Model.Cache.resolveDeps` / `checkDeps`.
+// ------------------------------------------------------------------------------------------------
+
+use ckb_types::core::cell::{CellMeta, CellMetaBuilder, HeaderChecker, SYSTEM_CELL, resolve_transaction, setup_system_cell_cache};
+use ckb_types::core::error::OutPointError;
+use ckb_types::core::DepType;
+
+struct SysWorld {
+    genesis: BlockView,
+    /// id → out-point
+    ops: HashMap<u64, OutPoint>,
+    ids: HashMap<OutPoint, u64>,
+}
+
+fn sys_world() -> SysWorld {
+    let (_, _, always) = always_success_cell();
+    let out = |cap: u64| CellOutput::new_builder().capacity(Capacity::shannons(cap)).lock(always.clone()).build();
+    let mut tx0 = TransactionBuilder::default().input(CellInput::new(OutPoint::null(), 0));
+    for d in [&b"always"[..], b"secp-code", b"dao-code", b"secp-data", b"multisig-code"] {
+        tx0 = tx0.output(out(100_000_000_000)).output_data(Bytes::from(d.to_vec()));
+    }
+    let tx0 = tx0.build();
+    let vec_of = |idx: &[u32]| {
+        let v: Vec<OutPoint> = idx.iter().map(|i| OutPoint::new(tx0.hash(), *i)).collect();
+        let packed: ckb_types::packed::OutPointVec = v.pack();
+        packed.as_bytes()
+    };
+    let tx1 = TransactionBuilder::default()
+        .input(CellInput::new(OutPoint::null(), 1))
+        .output(out(100_000_000_000))
+        .output_data(vec_of(&[1, 3]))
+        .output(out(100_000_000_000))
+        .output_data(vec_of(&[3, 4]))
+        .build();
+    let genesis = ckb_types::core::BlockBuilder::default().transaction(tx0.clone()).transaction(tx1.clone()).build();
+    let mut ops = HashMap::new();
+    for i in 0..5u64 {
+        ops.insert(i, OutPoint::new(tx0.hash(), i as u32));
+    }
+    ops.insert(10, OutPoint::new(tx1.hash(), 0));
+    ops.insert(11, OutPoint::new(tx1.hash(), 1));
+    for i in 40..SYS_MAX_ID {
+        let h = ckb_hash::blake2b_256(format!("c14-sys-{}", i).as_bytes());
+        ops.insert(i, OutPoint::new(Byte32::from_slice(&h).unwrap(), (i % 5) as u32));
+    }
+    let ids = ops.iter().map(|(k, v)| (v.clone(), *k)).collect();
+    SysWorld { genesis, ops, ids }
+}
+
+const SYS_MAX_ID: u64 = 2400;
+/// the model line of the map `setup_system_cell_cache` builds from `sys_world().genesis`
+const SYS_MAP_LINE: &str = "c1,c2,c3,g10=1+3,g11=3+4";
+
+#[derive(Clone)]
+struct StubCells {
+    /// id → (status: 0 live / 1 dead / 2 unknown, data)
+    st: HashMap<OutPoint, (u8, Bytes)>,
+}
+
+impl CellProvider for StubCells {
+    fn cell(&self, op: &OutPoint, eager_load: bool) -> CellStatus {
+        match self.st.get(op) {
+            Some((0, data)) => {
+                let (_, _, always) = always_success_cell();
+                let output = CellOutput::new_builder().capacity(Capacity::shannons(100_000_000_000)).lock(always.clone()).build();
+                let mut m: CellMeta = CellMetaBuilder::from_cell_output(output, data.clone()).out_point(op.clone()).build();
+                if !eager_load {
+                    m.mem_cell_data = None;
+                    m.mem_cell_data_hash = None;
+                }
+                CellStatus::live_cell(m)
+            }
+            Some((1, _)) => CellStatus::Dead,
+            _ => CellStatus::Unknown,
+        }
+    }
+}
+
+impl CellChecker for StubCells {
+    fn is_live(&self, op: &OutPoint) -> Option<bool> {
+        match self.st.get(op) {
+            Some((0, _)) => Some(true),
+            Some((1, _)) => Some(false),
+            _ => None,
+        }
+    }
+}
+
+struct AnyHeader;
+impl HeaderChecker for AnyHeader {
+    fn check_valid(&self, _: &Byte32) -> Result<(), OutPointError> {
+        Ok(())
+    }
+}
+
+fn sys_err(w: &SysWorld, e: &OutPointError) -> String {
+    let id = |op: &OutPoint| w.ids.get(op).map(|i| i.to_string()).unwrap_or_else(|| "?".into());
+    match e {
+        OutPointError::Dead(op) => format!("err dead {}", id(op)),
+        OutPointError::Unknown(op) => format!("err unknown {}", id(op)),
+        OutPointError::InvalidDepGroup(op) => format!("err invalid {}", id(op)),
+        OutPointError::OverMaxDepExpansionLimit => "err overmax".into(),
+        other => format!("err other:{:?}", other).split('(').next().unwrap().to_string(),
+    }
+}
+
+/// one generated case: the op lines and the implementation's answers (in the current state of SYSTEM_CELL)
+fn sys_case_answers(w: &SysWorld, seed: u64) -> Vec<(String, String)> {
+    let mut rng = Rng::new(seed ^ 0x5E5CE11);
+    let mut lines: Vec<(String, String)> = vec![];
+    let mut cells = StubCells { st: HashMap::new() };
+    let set = |cells: &mut StubCells, lines: &mut Vec<(String, String)>, st: u8, lo: u64, hi: u64| {
+        for i in lo..=hi {
+            let data = cells.st.get(&w.ops[&i]).map(|x| x.1.clone()).unwrap_or_else(|| Bytes::from(i.to_le_bytes().to_vec()));
+            cells.st.insert(w.ops[&i].clone(), (st, data));
+        }
+        let name = ["live", "dead", "unknown"][st as usize];
+        lines.push((format!("st {} {}", name, if lo == hi { lo.to_string() } else { format!("{}-{}", lo, hi) }), "ok".into()));
+    };
+    // the genesis cells, as the genesis block has them
+    for (ti, tx) in w.genesis.transactions().iter().enumerate() {
+        for (i, (_, d)) in tx.outputs_with_data_iter().enumerate() {
+            let id = if ti == 0 { i as u64 } else { 10 + i as u64 };
+            cells.st.insert(w.ops[&id].clone(), (0, d));
+        }
+    }
+    lines.push(("st live 0-4,10-11".into(), "ok".into()));
+    lines.push(("grp 10 1+3".into(), "ok".into()));
+    lines.push(("grp 11 3+4".into(), "ok".into()));
+    // other cells: 40 = the input; 50.. = groups; 100.. = code cells
+    set(&mut cells, &mut lines, 0, 40, 40);
+    set(&mut cells, &mut lines, 0, 100, 2300);
+    let dead_lo = 2310 + rng.below(5);
+    set(&mut cells, &mut lines, 1, dead_lo, dead_lo + 2);
+    let group = |cells: &mut StubCells, lines: &mut Vec<(String, String)>, g: u64, st: u8, members: Option<Vec<u64>>, raw: Option<Vec<u8>>| {
+        let data = match (&members, raw) {
+            (Some(ms), _) => {
+                let v: Vec<OutPoint> = ms.iter().map(|i| w.ops[i].clone()).collect();
+                let packed: ckb_types::packed::OutPointVec = v.pack();
+                packed.as_bytes()
+            }
+            (None, Some(r)) => Bytes::from(r),
+            (None, None) => Bytes::new(),
+        };
+        cells.st.insert(w.ops[&g].clone(), (st, data));
+        lines.push((format!("st {} {}", ["live", "dead", "unknown"][st as usize], g), "ok".into()));
+        let valid = members.as_ref().is_some_and(|m| !m.is_empty());
+        lines.push((format!("grp {} {}", g, if valid { members.unwrap().iter().map(|x| x.to_string()).collect::<Vec<_>>().join("+") } else { "x".into() }), "ok".into()));
+    };
+    let k_big = rng.range(2, 40);
+    group(&mut cells, &mut lines, 50, 0, Some(vec![2301, 2302, 2303]), None);
+    group(&mut cells, &mut lines, 51, 0, None, Some(vec![1, 2, 3]));
+    group(&mut cells, &mut lines, 52, 0, None, None);
+    group(&mut cells, &mut lines, 53, 0, Some(vec![1, 3]), None); // twin of the system group 10
+    group(&mut cells, &mut lines, 54, 0, Some((0..k_big).map(|i| 2304 - 50 + i).collect()), None);
+    group(&mut cells, &mut lines, 55, 1, Some(vec![2301]), None); // the group cell is dead
+    group(&mut cells, &mut lines, 56, 0, Some(vec![2301, dead_lo, 2302]), None); // a dead member
+    group(&mut cells, &mut lines, 57, 0, Some(vec![2301, 2390]), None); // an unknown member
+    group(&mut cells, &mut lines, 58, 0, Some(vec![]), None); // an empty vector
+    let n_res = rng.range(24, 36);
+    for _ in 0..n_res {
+        // ---- the dep list: special deps + a run of code deps filling the budget to a chosen total
+        #[derive(Clone)]
+        enum D {
+            C(u64),
+            G(u64),
+            Run(u64, u64),
+        }
+        let cost = |d: &D| match d {
+            D::C(_) => 1u64,
+            D::G(10) | D::G(11) | D::G(53) | D::G(57) => 2,
+            D::G(50) | D::G(56) => 3,
+            D::G(54) => k_big,
+            D::G(55) => 1,
+            D::G(_) => 0,
+            D::Run(a, b) => b - a + 1,
+        };
+        let mut special: Vec<D> = vec![];
+        let menu: [(D, u64); 14] = [
+            (D::G(10), 6), (D::G(11), 5), (D::C(1), 3), (D::C(2), 3), (D::C(3), 3), (D::C(4), 1), (D::C(10), 1),
+            (D::G(50), 3), (D::G(53), 4), (D::G(54), 3), (D::G(1), 1), (D::C(0), 2), (D::G(58), 1), (D::C(11), 1),
+        ];
+        for (d, wgt) in menu.iter() {
+            if rng.chance(*wgt, 12) {
+                special.push(d.clone());
+            }
+        }
+        let faulty: [D; 7] = [D::C(dead_lo), D::C(2395), D::G(51), D::G(52), D::G(55), D::G(56), D::G(57)];
+        let fault = if rng.chance(1, 4) { Some(rng.pick(&faulty).clone()) } else { None };
+        let used: u64 = special.iter().map(cost).sum();
+        let limit = 2048u64;
+        let total = match rng.below(10) {
+            0 => used + rng.below(30),
+            1 => limit - 2,
+            2 | 3 => limit - 1,
+            4 | 5 | 6 => limit,
+            7 | 8 => limit + 1,
+            _ => limit + 2,
+        };
+        let run_len = total.saturating_sub(used).min(2200);
+        // order: specials before / after / around the run
+        let mut deps: Vec<D> = vec![];
+        let run = if run_len > 0 { Some(D::Run(100, 100 + run_len - 1)) } else { None };
+        let split = rng.below(special.len() as u64 + 1) as usize;
+        let place = rng.below(3);
+        for (i, d) in special.iter().enumerate() {
+            if i == split && place == 1 {
+                if let Some(r) = &run {
+                    deps.push(r.clone());
+                }
+            }
+            deps.push(d.clone());
+        }
+        if place == 0 {
+            if let Some(r) = &run {
+                deps.insert(0, r.clone());
+            }
+        } else if place == 2 || (place == 1 && split >= special.len()) {
+            if let Some(r) = &run {
+                deps.push(r.clone());
+            }
+        }
+        if let Some(f) = fault {
+            let at = rng.below(deps.len() as u64 + 1) as usize;
+            deps.insert(at, f);
+        }
+        if deps.is_empty() {
+            deps.push(D::G(10));
+        }
+        // ---- the transaction
+        let mut b = TransactionBuilder::default().input(CellInput::new(w.ops[&40].clone(), 0));
+        let dep = |id: u64, group: bool| CellDep::new_builder().out_point(w.ops[&id].clone()).dep_type(if group { DepType::DepGroup } else { DepType::Code }).build();
+        let mut toks = vec![];
+        for d in &deps {
+            match d {
+                D::C(i) => {
+                    b = b.cell_dep(dep(*i, false));
+                    toks.push(format!("c{}", i));
+                }
+                D::G(i) => {
+                    b = b.cell_dep(dep(*i, true));
+                    toks.push(format!("g{}", i));
+                }
+                D::Run(a, z) => {
+                    for i in *a..=*z {
+                        b = b.cell_dep(dep(i, false));
+                    }
+                    toks.push(if a == z { format!("c{}", a) } else { format!("c{}-{}", a, z) });
+                }
+            }
+        }
+        let tx = b.output(CellOutput::new_builder().capacity(Capacity::shannons(1)).build()).output_data(Bytes::new()).build();
+        // inputs consumed earlier in the block: sometimes one of the (non-system) code deps
+        let seen_ids: Vec<u64> = if rng.chance(1, 8) { vec![100 + rng.below(run_len.max(1))] } else { vec![] };
+        let mut seen: HashSet<OutPoint> = seen_ids.iter().map(|i| w.ops[i].clone()).collect();
+        let r = resolve_transaction(tx, &mut seen, &cells, &AnyHeader);
+        let line = format!("res {} {}", if seen_ids.is_empty() { "-".to_string() } else { seen_ids.iter().map(|x| x.to_string()).collect::<Vec<_>>().join(",") }, toks.join(","));
+        match &r {
+            Err(e) => lines.push((line, sys_err(w, e))),
+            Ok(rtx) => {
+                let ids: Vec<u64> = rtx.resolved_cell_deps.iter().map(|m| w.ids[&m.out_point]).collect();
+                let h = ids.iter().fold(0u64, |acc, x| (acc * 31 + x + 1) % 1_000_000_007);
+                let gs: Vec<String> = rtx.resolved_dep_groups.iter().map(|m| w.ids[&m.out_point].to_string()).collect();
+                lines.push((line, format!("ok cells={} h={} groups={}", ids.len(), h, if gs.is_empty() { "-".to_string() } else { gs.join(",") })));
+            }
+        }
+        // ---- the liveness re-check of the resolved transaction, sometimes after a cell changed
+        if let Ok(rtx) = &r {
+            if rng.chance(1, 2) {
+                let mut checker = cells.clone();
+                if rng.chance(1, 2) {
+                    let victims: Vec<u64> = rtx.resolved_cell_deps.iter().chain(rtx.resolved_dep_groups.iter()).map(|m| w.ids[&m.out_point]).filter(|i| *i >= 40).collect();
+                    if !victims.is_empty() {
+                        let v = *rng.pick(&victims);
+                        let st = if rng.chance(1, 2) { 1u8 } else { 2u8 };
+                        let data = checker.st[&w.ops[&v]].1.clone();
+                        checker.st.insert(w.ops[&v].clone(), (st, data));
+                        lines.push((format!("st {} {}", ["live", "dead", "unknown"][st as usize], v), "ok".into()));
+                        let mut none: HashSet<OutPoint> = HashSet::new();
+                        let c = rtx.check(&mut none, &checker, &AnyHeader);
+                        lines.push(("chk".into(), match &c { Ok(()) => "ok".into(), Err(e) => sys_err(w, e) }));
+                        lines.push((format!("st live {}", v), "ok".into()));
+                        continue;
+                    }
+                }
+                let mut none: HashSet<OutPoint> = HashSet::new();
+                let c = rtx.check(&mut none, &checker, &AnyHeader);
+                lines.push(("chk".into(), match &c { Ok(()) => "ok".into(), Err(e) => sys_err(w, e) }));
+            }
+        }
+    }
+    lines
+}
+
+/// phase 2: initialise SYSTEM_CELL through the production function, answer every case again,
+/// compare with phase 1, emit both phases as one case for the model
+fn sys_phase2(out: &mut Out, w: &SysWorld, cold: &[(u64, Vec<(String, String)>)]) {
+    if cold.is_empty() {
+        return;
+    }
+    {
+        let mut boot = StubCells { st: HashMap::new() };
+        for (ti, tx) in w.genesis.transactions().iter().enumerate() {
+            for (i, (_, d)) in tx.outputs_with_data_iter().enumerate() {
+                let id = if ti == 0 { i as u64 } else { 10 + i as u64 };
+                boot.st.insert(w.ops[&id].clone(), (0, d));
+            }
+        }
+        assert!(SYSTEM_CELL.get().is_none(), "SYSTEM_CELL must not be initialised before phase 2");
+        setup_system_cell_cache(&w.genesis, &boot).expect("SYSTEM_CELL set once");
+        let m = SYSTEM_CELL.get().expect("set");
+        out.count(&format!("sys:map-entries={}", m.len()));
+    }
+    for (seed, cold_lines) in cold {
+        out.begin_case(&format!("seed={} kind=sys", seed));
+        out.op("sys -", "ok");
+        for (l, a) in cold_lines {
+            out.op(l, a);
+        }
+        let warm_lines = sys_case_answers(w, *seed);
+        out.op(&format!("sys {}", SYS_MAP_LINE), "ok");
+        let mut kinds: HashSet<String> = HashSet::new();
+        let mut n_over = 0;
+        for (i, (l, a)) in warm_lines.iter().enumerate() {
+            out.op(l, a);
+            let (cl, ca) = &cold_lines[i];
+            assert_eq!(cl, l, "the generator is deterministic");
+            if l.starts_with("res") || l == "chk" {
+                out.evaluations += 1;
+                let class = a.split(' ').take(2).collect::<Vec<_>>().join(" ");
+                out.count(&format!("sys:{}:{}", &l[..3], if a.starts_with("ok") { "ok" } else { &class }));
+                kinds.insert(class.clone());
+                if a == "err overmax" {
+                    n_over += 1;
+                }
+                // `check` walks dep groups first with the map and cell deps first without it: the first
+                // error may name another cell; the verdict class is what must agree
+                let same = if l == "chk" { ca.split(' ').next() == a.split(' ').next() } else { ca == a };
+                if !same {
+                    out.oracle_fail("system-cell-cache-changes-answer", &format!("seed {} `{}`: without SYSTEM_CELL `{}`, with SYSTEM_CELL `{}`", seed, short(l), ca, a));
+                }
+            }
+        }
+        let mut ks: Vec<String> = kinds.into_iter().collect();
+        ks.sort();
+        out.nontrivial(format!("sys|{}|{}|{}", warm_lines.len(), n_over, ks.join(",")));
+    }
+}
+
 pub fn run(opts: &Opts) {
     let mut out = Out::new(&opts.out);
     let base = scratch_dir(&opts.out, "c14");
     let cyc = measure_cycles(&base);
+    // kind=sys, phase 1: answered while SYSTEM_CELL is not initialised (see `sys_phase2`)
+    let world = sys_world();
+    let sys_seeds: Vec<u64> = if let Some(p) = &opts.replay {
+        read_replay_ops(p).iter().filter(|l| l.starts_with("case ") && l.contains("kind=sys")).filter_map(|l| l.split_whitespace().find_map(|t| t.strip_prefix("seed=")).and_then(|s| s.parse().ok())).collect()
+    } else {
+        let n = if opts.thorough() { 40 * opts.scale } else { 10 * opts.scale };
+        (0..n).map(|i| opts.seed.wrapping_mul(1_000_003).wrapping_add(i)).collect()
+    };
+    assert!(SYSTEM_CELL.get().is_none());
+    let sys_cold: Vec<(u64, Vec<(String, String)>)> = sys_seeds.iter().map(|s| (*s, sys_case_answers(&world, *s))).collect();
     if let Some(p) = &opts.replay {
-        let mut n = 0;
+        let mut n = sys_cold.len();
         for l in read_replay_ops(p) {
             if l.starts_with("case ") {
                 if let Some(s) = l.split_whitespace().find_map(|t| t.strip_prefix("seed=")) {
                     let var = l.split_whitespace().find_map(|t| t.strip_prefix("var="));
-                    if l.contains("kind=pool") {
+                    if l.contains("kind=sys") {
+                        // both phases are emitted by `sys_phase2` below
+                    } else if l.contains("kind=cyc") {
+                        run_cyc_case(&mut out, s.parse().expect("seed"), &base, cyc);
+                    } else if l.contains("kind=pool") {
                         run_pool_case(&mut out, s.parse().expect("seed"), &base, cyc);
                     } else if l.contains("kind=store") {
                         run_store_case(&mut out, s.parse().expect("seed"), &base);
@@ -1777,6 +2308,10 @@ pub fn run(opts: &Opts) {
         for i in 0..cases {
             run_case(&mut out, opts.seed.wrapping_mul(1_000_003).wrapping_add(i), &base, cyc);
         }
+        let cyc_cases = if opts.thorough() { 20 * opts.scale } else { 5 * opts.scale };
+        for i in 0..cyc_cases {
+            run_cyc_case(&mut out, opts.seed.wrapping_mul(1_000_003).wrapping_add(i), &base, cyc);
+        }
         let pool_cases = if opts.thorough() { 12 * opts.scale } else { 3 * opts.scale };
         for i in 0..pool_cases {
             run_pool_case(&mut out, opts.seed.wrapping_mul(1_000_003).wrapping_add(i), &base, cyc);
@@ -1790,6 +2325,7 @@ pub fn run(opts: &Opts) {
             run_vc_case(&mut out, opts.seed.wrapping_mul(1_000_003).wrapping_add(i), &base, cyc, Some(if i % 2 == 0 { "rel" } else { "ts" }));
         }
     }
+    sys_phase2(&mut out, &world, &sys_cold);
     let _ = std::fs::remove_dir_all(&base);
     out.finish("a case = two real nodes (store caches size 0 + verification cache emptied before every block, vs default or size-1 store caches + verification cache kept) fed the same history: transactions proposed once, committed on a first branch, then re-committed at other positions on a heavier branch (A with one of two witness sets under the same tx hash, B, and S with a relative since that is immature at one position and mature at others), one block refused for immaturity, one invalid block and its child; after the history every block hash and out-point is queried on both nodes; every case is non-trivial (it contains a reorg re-commit and a since-dependent refusal); distinct by (window, epoch length, since distance, witness variants used). Before every delivery the content accessors are asked for the not-yet-stored hash on both nodes, after it for the stored block, and liveness / guarded data / data hash of every tracked out-point through handle, snapshot and store transaction. kind=vc: a lock that execs witness 0 and a since (relative number | absolute timestamp): branch A commits T with passing witnesses, branch B the same tx hash with failing ones on the block that makes B heaviest, branch C is valid and heavier with T immature in its context; test_accept_tx / submit_local_tx / notify_txs / a block are probed with T immature (and, for the relative variant, again mature with both witness sets); distinct by (variant, epoch length, since). kind=store: one RocksDB under a warm (default | size-1 | size-3 caches), a cold (size 0) and a per-round fresh ChainDB; 28-40 random insert / attach / detach / delete / rolled-back-attach steps over a 10-block tree (fork, uncle, empty-data output, extension-less block), after each a round of all accessors over all block hashes and out-points (stored or not) through handle / snapshot / transaction, compared with the cold store, the fresh store and the raw rows; distinct by (cache sizes, steps, op kinds, query density)");
 }
